@@ -1,9 +1,13 @@
 package c08
 
 import (
+	"encoding/json"
+	"strings"
+
 	"bytes"
 	gocontext "context"
 	"fmt"
+	"github.com/brutella/hc/db"
 	"os"
 	"runtime"
 	"sort"
@@ -341,16 +345,21 @@ type panicT struct{}
 
 func (panicT) Fatalf(f string, a ...interface{}) { panic(fmt.Sprintf(f, a...)) }
 
-var payloadLen = rapid.OneOf(rapid.IntRange(1, 30), rapid.SampledFrom([]int{990, 1000, 1024, 2000, 3000, 4000}), rapid.IntRange(1, 4000))
+// up to the size of an attribute database or a camera snapshot: a write path that treats "big" payloads
+// differently does so above some threshold nobody outside knows
+var payloadLen = rapid.OneOf(rapid.IntRange(1, 30), rapid.SampledFrom([]int{990, 1000, 1024, 2000, 3000, 4000, 4096, 8191, 8192, 8193, 16384, 16385, 32768, 65536, 65537}), rapid.IntRange(1, 4000), rapid.IntRange(4000, 70000))
 
 func TestC08Owned(t *testing.T) {
 	rapid.Check(t, func(t *rapid.T) {
 		n := rapid.IntRange(2, 5).Draw(t, "writers")
 		var specs []writerSpec
-		multi := false
+		multi, big := false, false
 		for i := 0; i < n; i++ {
 			l := payloadLen.Draw(t, "len")
 			specs = append(specs, writerSpec{l})
+			if l > 8192 {
+				big = true
+			}
 			if l+30 > 1024 {
 				multi = true
 			}
@@ -363,6 +372,9 @@ func TestC08Owned(t *testing.T) {
 		cls := []string{fmt.Sprintf("writers=%d", n)}
 		if multi {
 			cls = append(cls, "multi-frame-payload")
+		}
+		if big {
+			cls = append(cls, "payload>8192")
 		}
 		nt := false
 		if info != nil {
@@ -402,7 +414,7 @@ func TestC08Free(t *testing.T) {
 				defer wg.Done()
 				<-start
 				for r := 0; r < rounds; r++ {
-					n := []int{5, 900, 1100, 2500, 40}[(w+r+rep)%5]
+					n := []int{5, 900, 1100, 2500, 40, 9000, 20000, 70000}[(w+r+rep)%8]
 					hc.Write(payload(w, r, n))
 				}
 			}(w)
@@ -447,4 +459,133 @@ func TestC08Regress(t *testing.T) {
 			t.Errorf("%v (schedule %v, released: %v)", err, sched, info["history"])
 		}
 	}
+}
+
+// TestC08Transport: the same property one level up, where the writers are the library's own: the application
+// changes several characteristics from several goroutines while the controller that is subscribed to all of
+// them sends requests. Whatever the transport writes for one notification or one response, and in however
+// many pieces, the controller must read a sequence of intact HAP messages: every EVENT and every response
+// complete, contiguous and with the body its header announces. A short sleep at the entry of every
+// connection write (through the schedule hook) gives other writers the chance to get in between two
+// writes that belong together.
+func TestC08Transport(t *testing.T) {
+	reps := stats.EnvInt("VERIF_C08_TREPS", 3)
+	k, _ := stats.Shard()
+	for rep := 0; rep < reps; rep++ {
+		err := transportRound(rep, k)
+		if err != nil && len(err.Error()) > 5 && err.Error()[:5] == "INFRA" {
+			fmt.Println("VERIF-INCONCLUSIVE:", err)
+			t.Fatal(err)
+		}
+		if err != nil {
+			stats.Fail("TestC08Transport", err.Error(), map[string]interface{}{"repetition": rep, "shard": k})
+			t.Fatalf("repetition %d: %v", rep, err)
+		}
+	}
+}
+
+func transportRound(rep, k int) error {
+	dir := fixture.ScratchDir("c08t")
+	defer os.RemoveAll(dir)
+	d, _ := db.NewDatabase(dir)
+	ctrl := refctl.NewController("c08-controller", []byte{8, byte(rep), byte(k)})
+	d.SaveEntity(db.NewEntity(ctrl.ID, ctrl.LTPK, nil))
+	tb := fixture.NewTestBed("C08 Bridge", 0)
+	acc, err := tb.Start(dir, "03145154", false)
+	if err != nil {
+		return fmt.Errorf("INFRA: %v", err)
+	}
+	defer acc.StopAsync()
+	ent, err := d.EntityWithName(acc.Txt()["id"])
+	if err != nil {
+		return fmt.Errorf("INFRA: %v", err)
+	}
+	cl, err := refctl.Dial(acc.Addr)
+	if err != nil {
+		return fmt.Errorf("INFRA: %v", err)
+	}
+	defer cl.Close()
+	cl.Timeout = 20 * time.Second
+	if err := refctl.VerifyAndSecure(cl, ctrl, ent.PublicKey, []byte{byte(rep), byte(k), 8}); err != nil {
+		return fmt.Errorf("INFRA: verify: %v", err)
+	}
+	bulb := tb.Bulb
+	aid := bulb.ID
+	on, bri, hue, sat, text := bulb.Lightbulb.On, bulb.Lightbulb.Brightness, bulb.Lightbulb.Hue, bulb.Lightbulb.Saturation, tb.Text
+	iids := []uint64{on.ID, bri.ID, hue.ID, sat.ID, text.ID}
+	var sub []string
+	for _, iid := range iids {
+		sub = append(sub, fmt.Sprintf(`{"aid":%d,"iid":%d,"ev":true}`, aid, iid))
+	}
+	r, err := cl.Do("PUT", "/characteristics", refctl.ContentJSON, []byte(`{"characteristics":[`+strings.Join(sub, ",")+`]}`))
+	if err != nil || r.Status >= 300 {
+		return fmt.Errorf("INFRA: subscribe: %v %v", err, r)
+	}
+	hap.VerifYield = func(point string, b []byte) {
+		if point == "write:enter" {
+			time.Sleep(150 * time.Microsecond)
+		}
+	}
+	defer func() { hap.VerifYield = nil }()
+	rounds := 25
+	for round := 1; round <= rounds; round++ {
+		want := map[string]string{
+			fmt.Sprint(on.ID):   fmt.Sprint(round%2 == 1),
+			fmt.Sprint(bri.ID):  fmt.Sprint(1 + (round*7+rep)%99),
+			fmt.Sprint(hue.ID):  fmt.Sprint(float64(1 + (round*13)%350)),
+			fmt.Sprint(sat.ID):  fmt.Sprint(float64(1 + (round*3)%99)),
+			fmt.Sprint(text.ID): strings.Repeat("n", 1+(round*29)%200) + fmt.Sprint(round),
+		}
+		var wg sync.WaitGroup
+		start := make(chan struct{})
+		set := []func(){
+			func() { on.SetValue(round%2 == 1) },
+			func() { bri.SetValue(1 + (round*7+rep)%99) },
+			func() { hue.SetValue(float64(1 + (round*13)%350)) },
+			func() { sat.SetValue(float64(1 + (round*3)%99)) },
+			func() { text.SetValue(want[fmt.Sprint(text.ID)]) },
+		}
+		for _, f := range set {
+			wg.Add(1)
+			go func(f func()) { defer wg.Done(); <-start; f() }(f)
+		}
+		close(start)
+		// a request of the controller in the middle of the notifications
+		r, err := cl.Do("GET", fmt.Sprintf("/characteristics?id=%d.%d", aid, text.ID), "", nil)
+		if err != nil {
+			return fmt.Errorf("round %d: with 5 application goroutines changing values, the controller's stream is no sequence of intact messages: %v", round, err)
+		}
+		if r.Status != 200 || !json.Valid(r.Body) {
+			return fmt.Errorf("round %d: response to the controller's request is damaged: HTTP %d %.100q", round, r.Status, r.Body)
+		}
+		wg.Wait()
+		// a second request as a barrier: all five notifications were written before SetValue returned
+		if r, err = cl.Do("GET", fmt.Sprintf("/characteristics?id=%d.%d", aid, on.ID), "", nil); err != nil {
+			return fmt.Errorf("round %d: after the notifications the controller's stream is no sequence of intact messages: %v", round, err)
+		}
+		got := map[string]string{}
+		for _, ev := range cl.DrainEvents() {
+			var doc struct {
+				Characteristics []struct {
+					Aid, Iid uint64
+					Value    interface{}
+				}
+			}
+			if jerr := json.Unmarshal(ev.Body, &doc); jerr != nil || len(doc.Characteristics) == 0 {
+				return fmt.Errorf("round %d: EVENT whose body is not the announced JSON document: %.120q (%v)", round, ev.Body, jerr)
+			}
+			for _, c := range doc.Characteristics {
+				got[fmt.Sprint(c.Iid)] = fmt.Sprint(c.Value)
+			}
+		}
+		for iid, v := range want {
+			if got[iid] != v {
+				return fmt.Errorf("round %d: notification for %d.%s: got %q, the application set %q (all: %v)", round, aid, iid, got[iid], v, got)
+			}
+		}
+		stats.Case(stats.Hash("transport", rep, k, round), true, []string{"transport:5-notifiers+requests"}, func() interface{} {
+			return map[string]interface{}{"mode": "live transport", "notifying_goroutines": 5, "concurrent_requests": 2, "round": round}
+		})
+	}
+	return nil
 }
